@@ -1,6 +1,7 @@
 import Model.Config
 import Model.ConfigGenesis
 import Proofs.C18
+import Proofs.C18Text
 import Gen.C18
 
 /-! # C18 — every configuration option obeys flag > file > default and survives save/load;
@@ -643,11 +644,54 @@ theorem no_truncate_same_when_not_longer (d : Disk) (p : Nat) (bs : Bytes)
     (writeNoTrunc d p bs).read p = (writeTrunc d p bs).read p := by
   simp [writeNoTrunc, writeTrunc, Disk.read, List.drop_eq_nil_of_le h]
 
-/-- **A genesis written by the node loads back equal** (modulo the time location), whatever file
-the path held before — for every genesis `encoding/json` preserves (`GenesisEncodable`) that
-`Validate` accepts.  `TextRoundTrips g` (parser ∘ printer gives `g`'s document) is a decidable side
-condition on the text layer: it is evaluated, not proved, for every genesis — see its docstring. -/
-theorem genesis_load_save (d : Disk) (p : Nat) (g : Genesis) (he : GenesisEncodable g = true)
+/-- **Parser ∘ printer gives the document the values denote, for EVERY genesis** (text layer; was an
+evaluated side condition until `Proofs/C18Text.lean`).  Whatever the chain id (any bytes: escapes,
+multi-byte sequences, invalid UTF-8 → U+FFFD as `encode` says), the initial height, the proposer
+address (any bytes or nil) and the zone offset: if `Save` accepts `g` (`encode g = .ok j`) then the
+bytes `Save` writes parse to exactly `j`.  The only hypothesis: the wall-clock fields of the time
+are those of a real `time.Time` (`WallClockOK`: month 1..12, day 1..31, hour < 24, minute < 60,
+second < 60, nanosecond < 10⁹).  `GoTime` is a record of free numbers; no `time.Time` Go can hold
+is excluded, and the hypothesis is NECESSARY: `textRoundTrips_iff`. -/
+theorem textRoundTrips_of_encodable (g : Genesis) (hw : WallClockOK g.time = true) : TextRoundTrips g = true :=
+  textRoundTrips_of_wallClock g hw
+
+/-- `WallClockOK` is exactly the condition: for a genesis `Save` accepts, the text round-trips IF
+AND ONLY IF the wall-clock fields are those of a real `time.Time` -/
+theorem textRoundTrips_iff (g : Genesis) (j : JFile) (h : encode g = .ok j) :
+    TextRoundTrips g = true ↔ WallClockOK g.time = true :=
+  textRoundTrips_iff_wallClock g j h
+
+/-- a genesis whose time record holds these month / day / second / nanosecond numbers -/
+def recordG (mo d s ns : Nat) : Genesis :=
+  { chainId := str "c", initialHeight := 1, proposer := none,
+    time := { year := 2024, month := mo, day := d, hour := 0, min := 0, sec := s, nsec := ns, offSec := 0, locName := "" } }
+
+/-- … and without it the statement is false (records no `time.Time` can hold): month 13, day 0,
+second 60 are refused by the parser; month 105 prints as `05`; 10⁹ ns prints as `.` -/
+theorem textRoundTrips_fails_without_wallClock :
+    TextRoundTrips (recordG 13 1 0 0) = false ∧ TextRoundTrips (recordG 1 0 0 0) = false ∧
+    TextRoundTrips (recordG 1 1 60 0) = false ∧ TextRoundTrips (recordG 105 1 0 0) = false ∧
+    TextRoundTrips (recordG 1 1 0 1000000000) = false ∧
+    encode (recordG 13 1 0 0) ≠ .error .yearRange ∧ encode (recordG 13 1 0 0) ≠ .error .zoneHour ∧
+    TextRoundTrips (recordG 12 31 59 999999999) = true := by
+  decide +kernel
+
+/-- every document the parser reads — so every genesis that LOADS — has a real wall clock -/
+theorem genesis_loaded_has_wall_clock (bs : Bytes) (g : Genesis) (h : loadBytes bs = .ok g) :
+    WallClockOK g.time = true := by
+  unfold loadBytes at h
+  cases hp : parse bs with
+  | none => rw [hp] at h; cases h
+  | some j =>
+    rw [hp] at h
+    simp only at h
+    cases hv : validate (decodeDoc j) with
+    | some r => rw [hv] at h; cases h
+    | none => rw [hv] at h; cases h; exact Text.parse_wallClock bs j hp
+
+/-- (lemma: the two statements below from the text-layer side condition, as they were stated
+while `TextRoundTrips` was only evaluated) -/
+theorem genesis_load_save_of_text (d : Disk) (p : Nat) (g : Genesis) (he : GenesisEncodable g = true)
     (ht : TextRoundTrips g = true) (hv : validate g = none) :
     saveThenLoad writeTrunc d p g = .ok (.ok (normLoc g)) := by
   have hf := genesis_fields_roundtrip g he
@@ -662,8 +706,7 @@ theorem genesis_load_save (d : Disk) (p : Nat) (g : Genesis) (he : GenesisEncoda
     have hval : validate (normLoc g) = none := hv
     simp [loadBytes, hparse, hdec, hval]
 
-/-- … **and an invalid genesis is refused**, for the reason `Validate` gives -/
-theorem genesis_invalid_refused (d : Disk) (p : Nat) (g : Genesis) (r : Refusal) (he : GenesisEncodable g = true)
+theorem genesis_invalid_refused_of_text (d : Disk) (p : Nat) (g : Genesis) (r : Refusal) (he : GenesisEncodable g = true)
     (ht : TextRoundTrips g = true) (hv : validate g = some r) :
     saveThenLoad writeTrunc d p g = .ok (.error (.refused r)) := by
   have hf := genesis_fields_roundtrip g he
@@ -677,6 +720,51 @@ theorem genesis_invalid_refused (d : Disk) (p : Nat) (g : Genesis) (r : Refusal)
     rw [(genesis_save_replaces d p g j hj).2.2]
     have hval : validate (normLoc g) = some r := hv
     simp [loadBytes, hparse, hdec, hval]
+
+/-- **A genesis written by the node loads back equal** (modulo the time location), whatever file
+the path held before — for every genesis `encoding/json` preserves (`GenesisEncodable`: year
+0..9999, zone offset of whole minutes below 24 h, chain id valid UTF-8) that `Validate` accepts.
+The text layer is PROVED (`textRoundTrips_of_encodable`), no evaluated side condition is left;
+`WallClockOK g.time` only says that the record `GoTime` holds the fields of a real `time.Time`. -/
+theorem genesis_load_save (d : Disk) (p : Nat) (g : Genesis) (he : GenesisEncodable g = true)
+    (hw : WallClockOK g.time = true) (hv : validate g = none) :
+    saveThenLoad writeTrunc d p g = .ok (.ok (normLoc g)) :=
+  genesis_load_save_of_text d p g he (textRoundTrips_of_encodable g hw) hv
+
+/-- … **and an invalid genesis is refused**, for the reason `Validate` gives -/
+theorem genesis_invalid_refused (d : Disk) (p : Nat) (g : Genesis) (r : Refusal) (he : GenesisEncodable g = true)
+    (hw : WallClockOK g.time = true) (hv : validate g = some r) :
+    saveThenLoad writeTrunc d p g = .ok (.error (.refused r)) :=
+  genesis_invalid_refused_of_text d p g r he (textRoundTrips_of_encodable g hw) hv
+
+/-- **What `Save` writes always parses**, also outside `GenesisEncodable` (invalid UTF-8, zone
+seconds): whenever `Save` succeeds, `LoadGenesis` of the file is `Validate` of the document
+`encode` says the values denote — never `unparsable` -/
+theorem genesis_saved_file_parses (d : Disk) (p : Nat) (g : Genesis) (j : JFile) (h : encode g = .ok j)
+    (hw : WallClockOK g.time = true) :
+    saveThenLoad writeTrunc d p g = .ok (match validate (decodeDoc j) with
+      | some r => .error (.refused r) | none => .ok (decodeDoc j)) := by
+  rw [(genesis_save_replaces d p g j h).2.2]
+  unfold loadBytes
+  rw [Text.parse_render g j h hw]
+  simp only []
+  cases validate (decodeDoc j) <;> rfl
+
+/-- non-vacuity: a chain id with a two-byte character, `<`, `"`, LF, U+2028, `\`, a control
+character and a four-byte character (all escape classes), a proposer address, nanoseconds, a
+negative half-hour zone, 29 February, initial height 42 -/
+def richG : Genesis :=
+  { chainId := [0xC3, 0xA9, 0x3C, 0x22, 0x0A, 0xE2, 0x80, 0xA8, 0x5C, 0x01, 0xF0, 0x9F, 0x98, 0x80, 0x7F],
+    time := { year := 2024, month := 2, day := 29, hour := 23, min := 59, sec := 59, nsec := 123456000,
+              offSec := -12600, locName := "America/St_Johns" },
+    initialHeight := 42, proposer := some [1, 2, 3, 4, 5] }
+
+example : GenesisEncodable richG = true ∧ WallClockOK richG.time = true ∧ validate richG = none := by decide +kernel
+example : saveThenLoad writeTrunc [(1, str "old")] 1 richG = .ok (.ok (normLoc richG)) :=
+  genesis_load_save _ 1 richG (by decide +kernel) (by decide +kernel) (by decide +kernel)
+/-- (the same by evaluation: the theorem and the executed model agree on this genesis) -/
+example : saveThenLoad writeTrunc [(1, str "old")] 1 richG = .ok (.ok (normLoc richG)) := by decide +kernel
+example : TextRoundTrips richG = true := textRoundTrips_of_encodable richG (by decide +kernel)
 
 /-- loading never yields an invalid genesis, whatever bytes the path holds -/
 theorem genesis_loaded_is_valid (bs : Bytes) (g : Genesis) (h : loadBytes bs = .ok g) : validate g = none := by
